@@ -39,7 +39,7 @@ def data_and_options(cfg, val, sym):
         widths.append(w)
         if sc.startswith("linear"):
             if sc == "linear-explicit":
-                t = val("t%d" % i, D0, D1)
+                t = float(cfg["pinned"][i]) if cfg.get("pinned") and cfg["pinned"][i] is not None else val("t%d" % i, D0, D1)
             else:
                 t = cfg["ctimes"][i]
         elif sc == "time-explicit":
@@ -425,6 +425,11 @@ def pic_configs(tier, prop):
                 if tier == "quick" and (k % 2) and prop != "c08":
                     continue
                 out.append(mk_cfg("%s-%s-layers-%s-%s" % (prop, mode, alg, d), mode=mode, scale="linear-explicit", direction=d, n=3, labella={"maxPos": 120, "algorithm": alg}, vpsc="contract", texts=[1, 0, 3], layergap=(60, 3, 1)[k % 3], weight=40, shards=4))
+    if prop == "c07":
+        # three layers in the quick tier: algorithm_overlap keeps at least two items per layer, so three layers need five labels;
+        # three of the five times are pinned, two are symbolic (the fully symbolic five-label configuration is in the thorough tier)
+        for mode, d in (("svg", "down"), ("tex", "right")):
+            out.append(mk_cfg("c07-%s-three-layers-pinned-%s" % (mode, d), mode=mode, scale="linear-explicit", direction=d, n=5, fixedw=[60, 60, 60, 60, 60], pinned=[None, 30.0, 40.0, None, 55.0], labella={"maxPos": 130, "algorithm": "overlap"}, vpsc="contract", texts=[0, 1, 0, 0, 0], weight=100, shards=8))
     if prop == "c07" and tier != "quick":
         # three layers (a label two layers out owns a chain of two stubs): five labels of fixed width, symbolic times
         # (about 4 minutes on 16 cores: thorough tier only)
